@@ -566,6 +566,22 @@ def c14_programs(seed, tier):
                             p.append(v_int(rc["min"] + (k * 7 + ci * 3) % (span + 1)))
                     pts.append(p)
                 out.append(prog(f"b_{gname}_{tname}_{sname}", [new("g"), pc(proto, pts=pts), FIN], reals=True))
+    # rejected points leave no trace in the bounds: the offending value sits in a LATER record than the coordinates / indices
+    for tname, mk in coord_types[:2] + coord_types[3:]:
+        proto = [mk(n) for n in C + Sn] + idx[:2] + [rec("intensity", "int", 0, 9)]
+        def pt(x, row, inten, proto=proto):
+            vals = []
+            for ci, rc in enumerate(proto[:6]):
+                vals.append(value_for(rc, x * (1 + ci)))
+            return vals + [v_int(row), v_int(row % 7), inten]
+        good = [pt(1.0, 3, v_int(1)), pt(-2.0, 4, v_int(2)), pt(0.5, 5, v_int(3))]
+        bad_range = pt(100.0, 900, v_int(99))          # intensity outside 0..9
+        bad_low = pt(-100.0, -5, v_int(-1))
+        bad_type = pt(77.0, 800, v_f32(1.0))           # wrong type in the last record
+        bad_arity = pt(55.0, 700, v_int(1))[:-1]
+        for bname, seq in (("first", [bad_range] + good), ("middle", good[:1] + [bad_range, bad_low, bad_type] + good[1:]), ("last", good + [bad_type, bad_low]),
+                           ("only", [bad_range, bad_type]), ("arity", good[:2] + [bad_arity] + good[2:])):
+            out.append(prog(f"b_rejected_{bname}_{tname}", [new("g"), pc(proto, pts=seq), FIN], reals=True))
     return out
 
 
